@@ -1,5 +1,5 @@
 SPECIFICATION Spec
-CONSTANT OpenKF = {"D2", "D3", "D5b", "D9", "D10", "D11c", "D14", "D15"}
+CONSTANT OpenKF = {"D2", "D3", "D5b", "D9b", "D10", "D11c", "D14", "D15"}
 INVARIANT Report
 INVARIANT Done
 CHECK_DEADLOCK FALSE
